@@ -184,6 +184,17 @@ static inline u64 spec_upow_u32(u64 x, u32 y, unsigned ymax) {
     }
   return r;
 }
+/* the same representability question answered from a table of integer roots, for 0 <= y <= 12: x^y fits iff |x| is at
+ * most floor(bound^(1/y)); -2^31 is reached only by x = -2^31, y = 1 in this range.  (Cross-checked against spec_ipow_s32 /
+ * spec_upow_u32 in the self-test; stated this way the bound on x is explicit, which the solvers need.) */
+static inline int spec_upow_fits_u32(u64 x, u32 y) {
+  static const u64 root[13] = {0, 4294967295ull, 65535, 1625, 255, 84, 40, 23, 15, 11, 9, 7, 6};
+  return y == 0 || (y <= 12 && x <= root[y]);
+}
+static inline int spec_ipow_fits_s32(s64 x, u32 y) {
+  static const s64 root[13] = {0, 2147483647ll, 46340, 1290, 215, 73, 35, 21, 14, 10, 8, 7, 5};
+  return y == 0 || (y == 1 && x == -2147483648ll) || (y <= 12 && x <= root[y] && x >= -root[y]);
+}
 /* r == floor(sqrt(x)), x >= 0 */
 static inline int spec_is_floor_sqrt(u64 r, u64 x) { return r <= 0xffffffffull && r * r <= x && (u128)x < ((u128)r + 1) * ((u128)r + 1); }
 #endif
